@@ -2,6 +2,7 @@
    Model/BoxModel.v: a box is a container (moov trak traf moof minf mvex mdia schi sinf stbl udta)
    with child boxes, or an opaque payload; headers use the 32-bit size form. *)
 From Verif Require Import Base.Tactics Base.ZList Model.BoxModel Proofs.BoxProofs.
+From Verif Require Model.FieldModel Proofs.FieldProofs.
 
 (* encode then parse: every well-formed forest (4-byte types, container table respected, sizes
    below 2^32), any depth and length *)
@@ -36,3 +37,28 @@ Example C04_example :
             Leaf (fourcc 109 100 97 116) [1; 2; 3]] in
   all_wf t /\ parse 10 (enc_list t) = Some t /\ zlen (enc_list t) = 35.
 Proof. vm_compute. repeat split; try reflexivity; try discriminate. Qed.
+
+(* ---- typed field codecs: for EVERY layout (the layouts of mvhd, tkhd, mdhd, mehd, tfdt, mfhd, trex, tfhd,
+   trun, saio, tenc, pssh for every version / flags / count are instances, Model/FieldModel.layout_of):
+   decoding what was encoded returns the values, and whatever the decoder accepts re-encodes to exactly
+   the bytes it consumed *)
+Theorem C04_typed_decode_encode :
+  forall l vs, FieldModel.vals_ok l vs ->
+  exists bs, FieldModel.enc_fields l vs = Some bs /\ forall rest, FieldModel.dec_fields l (bs ++ rest) = Some (vs, rest).
+Proof. exact FieldProofs.dec_enc. Qed.
+Print Assumptions C04_typed_decode_encode.
+
+Theorem C04_typed_encode_decode :
+  forall l bs vs rest, Forall FieldProofs.is_byte bs -> FieldModel.dec_fields l bs = Some (vs, rest) ->
+  exists pre, FieldModel.enc_fields l vs = Some pre /\ bs = pre ++ rest /\ FieldModel.vals_ok l vs.
+Proof. exact FieldProofs.enc_dec. Qed.
+Print Assumptions C04_typed_encode_decode.
+
+Example C04_typed_example :
+  (* mdhd version 1: the timescale stays 32 bits wide while the times are 64 bits *)
+  FieldModel.dec_fields (FieldModel.layout_of 0 1 0 0 0)
+    ([1; 0; 0; 0] ++ [0;0;0;0;0;0;0;5] ++ [0;0;0;0;0;0;0;6] ++ [0;1;95;144] ++ [0;0;0;1;0;0;0;0] ++ [85;196] ++ [0;0])
+  = Some ([FieldModel.VU 1; FieldModel.VU 0; FieldModel.VU 5; FieldModel.VU 6; FieldModel.VU 90000; FieldModel.VU 4294967296;
+           FieldModel.VU 21956; FieldModel.VU 0], []) /\
+  length (FieldModel.layout_of 8 0 769 3 0) = 10%nat.
+Proof. vm_compute. split; reflexivity. Qed.
